@@ -14,7 +14,7 @@ bSIG == B("{SIG}")
 
 \* what the http crate will hand the library for a wire request built here
 EnvOfWire(w) ==
-    LET pq == Split2(w.uri, 63) IN
+    LET pq == Split2(OriginForm(w.uri), 63) IN
     [method |-> w.method, path |-> pq[1], query |-> IF Len(pq) = 2 THEN pq[2] ELSE <<>>,
      hdrs |-> [i \in 1..Len(w.headers) |-> <<LowerSeq(w.headers[i][1]), w.headers[i][2]>>],
      body |-> w.body]
